@@ -231,6 +231,48 @@ def run(ctx):
                         {"a": P[i], "b": P[j], "c": P[k], "law": "transitivity"})
     evaluations += triples
 
+    # ---- DWARF values: DIEs reached through nested imports (their identity includes the chain of
+    # imports), units, attributes: the same laws, checked by zero-count queries on generated forests
+    from vlib import dwcheck, dwforest
+    DWLAWS = [
+        ("die:reflexive", "[entry] (|L| L elem (|A| ?(A != A), ?(A < A), ?(A > A), !(A == A), (A dup ?ne), !(A dup ?eq)))"),
+        ("die:exactly-one", "[entry] (|L| L elem (|A| L elem (|B| [?(A < B) 1, ?(A == B) 1, ?(A > B) 1] ?(length != 1))))"),
+        ("die:duality", "[entry] (|L| L elem (|A| L elem (|B| (?(A < B) !(B > A)), (?(A > B) !(B < A)), (?(A == B) !(B == A)), (?(A != B) !(B != A)), (?(A <= B) !(B >= A)))))"),
+        ("die:words-agree", "[entry] (|L| L elem (|A| L elem (|B| (?(A < B) !(A B ?lt)), (!(A < B) ?(A B ?lt)), (?(A == B) !(A B ?eq)), (!(A == B) ?(A B ?eq)), (?(A >= B) !(A B ?ge)))))"),
+        ("die:transitive", "[entry] (|L| L elem (|A| L elem (|B| ?(A <= B) L elem (|C| ?(B <= C) !(A <= C)))))"),
+        ("die:equal-means-same", "[entry] (|L| L elem (|A| L elem (|B| ?(A == B) ?((A offset) != (B offset)))))"),
+        ("unit:exactly-one", "[unit] (|L| L elem (|A| L elem (|B| [?(A < B) 1, ?(A == B) 1, ?(A > B) 1] ?(length != 1))))"),
+        ("attr:reflexive", "entry attribute (|A| ?(A != A), !(A == A), ?(A < A))"),
+    ]
+    dwin = [(nm, pth) for nm, _, pth in dwcheck.build_inputs(ctx, 6 if ctx.tier == "quick" else 40, imports=True, links=False)]
+    ndw = 0
+    for nm, pth in dwin:
+        sizes = zw.run_cases([zw.enc("[entry] length", dw=pth, t=60)])[0]
+        if not sizes.ok() or not sizes.results or int(sizes.results[0][0]["v"]) > 45:
+            continue                       # the transitivity law is cubic in the number of DIEs
+        counts = dwforest.law_counts(pth, DWLAWS)
+        for ln, q in DWLAWS:
+            evaluations += 1
+            ndw += 1
+            if counts[ln] != 0:
+                law("on the generated forest %s the law %s is broken: `%s` yields %s (must yield nothing)" % (nm, ln, q, counts[ln]),
+                    {"input": nm, "file": pth, "law": ln, "query": q})
+    # ---- infix forms = word forms also when an operand binds names (each operand is a scope of its own)
+    BINDERS = ["(let T := 7; T)", "(let T := 7; T 1 add)", "(T 2 add)", "(let U := T; U)", "((|T| T) 1 add)", "(let T := 9; let U := 1; T U add)"]
+    bq = []
+    for A in BINDERS:
+        for B in BINDERS:
+            for op, w in zip(INFIX, ["?lt", "?eq", "?gt", "?ne", "?ge", "?le"]):
+                bq.append(("let T := 5; (1, 2) (%s %s %s)" % (A, op, B), "let T := 5; (1, 2) ?(let X1 := %s; let X2 := %s; X1 X2 %s)" % (A, B, w)))
+    br = zw.run_cases([zw.enc(x) for pr in bq for x in pr])
+    for i, (qa, qb) in enumerate(bq):
+        ra, rb = br[2 * i], br[2 * i + 1]
+        evaluations += 2
+        ca = (ra.compile_error, [zw.canon_stack(x) for x in ra.results]) if not ra.crash else ("crash", ra.crash)
+        cb = (rb.compile_error, [zw.canon_stack(x) for x in rb.results]) if not rb.crash else ("crash", rb.crash)
+        if ca != cb:
+            law("the infix form `%s` and its word form `%s` differ: %s vs %s" % (qa, qb, str(ca)[:120], str(cb)[:120]), {"query": qa, "rewritten": qb, "law": "infix-word"})
+
     # ---- the integers underneath (int.cc): every boundary value in BOTH internal representations
     # (unsigned; signed, also when not negative), all ordered pairs, the six comparison operators
     # against the exact integer comparison (= CmpM on two arithmetic constants)
@@ -246,14 +288,14 @@ def run(ctx):
     ctx.cov.update({
         "evaluations": evaluations,
         "distinct_nontrivial": nontriv,
-        "rule": "all ordered pairs of a %d-value pool (integers in every arithmetic domain, bool, slot-type, DW_*/ELF families with equal and different numbers incl. machine-specific STT/STB, strings with NUL/high bytes/prefixes, nested and heterogeneous sequences, address sets), each compared with 12 word forms and 6 infix forms in one query; non-trivial = the two values are distinct pool entries of the same type; all triples checked for transitivity on the implementation's table; every pair compared with the extracted model; + int.cc's six comparison operators on all ordered pairs of %d boundary operands (each value in both internal representations, signed and unsigned)" % (n, len(lat)),
+        "rule": "all ordered pairs of a %d-value pool (integers in every arithmetic domain, bool, slot-type, DW_*/ELF families with equal and different numbers incl. machine-specific STT/STB, strings with NUL/high bytes/prefixes, nested and heterogeneous sequences, address sets), each compared with 12 word forms and 6 infix forms in one query; non-trivial = the two values are distinct pool entries of the same type; all triples checked for transitivity on the implementation's table; every pair compared with the extracted model; DIEs reached through nested imports, units and attributes of generated forests under the same laws (zero-count queries); infix vs word forms with operands that bind names; + int.cc's six comparison operators on all ordered pairs of %d boundary operands (each value in both internal representations, signed and unsigned)" % (n, len(lat)),
         "exhaustive": True,
         "samples": [{"query": pair_query(P[1], P[5]), "holds": sorted(table.get((1, 5)) or [])},
                     {"a": P[2], "b": P[20], "holds": sorted(table.get((2, 20)) or [])}],
         "traces_validated_against_impl": len(pairs),
         "pool_size": n, "domain_keys": len(keys), "type_codes": tcs, "triples_checked": triples,
         "disagreements": disagreements, "law_violations": law_viol,
-        "not_covered": "DWARF values (DIEs, attributes, units) are not in this pool; value_die::cmp is exercised by C05",
+        "dwarf_law_evaluations": ndw, "infix_word_pairs_with_binding_operands": len(bq),
     })
     return ctx.finish(oblig)
 
